@@ -34,13 +34,16 @@ MANDATORY = {
     "C12": ["inv_calc_checked", "t_to_0_limit_checked", "inv_tp_checked", "inv_calc_after-history", "retry_after_cancel", "retry_after_alloc-fail",
             "retry_after_open-fail", "retry_after_read-fail", "two_calculators_alive"],
     "C14": ["reread", "refill_checked", "two_calculators_alive", "rewrite_same_variable", "mutate_config", "retry_after_cancel", "retry_after_alloc-fail",
-            "retry_after_open-fail", "retry_after_read-fail", "retry_after_write-torn", "torn_file_rewritten"],
+            "retry_after_open-fail", "retry_after_read-fail", "retry_after_write-torn", "torn_file_rewritten", "chdir", "calc_dropped", "clutter_mid_session",
+            "singleton_read_compared", "singleton_write_compared", "reread_on_another_calculator", "rewrite_by_another_calculator", "same_calculator_written_from_two_cwds"],
     "C15": ["disk_file_checked", "disk_file_checked_final", "file_overwritten_by_other_client", "torn_file_rewritten", "alias_rewrite", "unit_override",
-            "fname_override", "retry_after_write-torn", "retry_after_cancel"],
-    "C17": ["round_qha_input_checked", "round_elast_data_checked", "energy_roundtrip_checked", "energy_file_overwritten_by_smaller", "fill_roundtrip_checked"],
+            "fname_override", "retry_after_write-torn", "retry_after_cancel", "same_calculator_written_from_two_cwds", "one_list_object_for_both_bases",
+            "ad_iso_files_differ", "calc_dropped"],
+    "C17": ["round_qha_input_checked", "round_elast_data_checked", "energy_roundtrip_checked", "energy_file_overwritten_by_smaller", "energy_file_overwritten_same_size", "fill_roundtrip_checked"],
     "C19": ["extract_checked", "geotherm_node_checked", "geotherm_offnode_poly_checked", "extract_reads_other_clients_file", "extract_between_grid_values",
-            "extract_reads_stub_table", "torn_file_rewritten"],
-    "C09": ["fill_presentation_pair_checked", "fill_supplied_values_checked", "fill_nonexistent_path_rejected", "clutter_entries"],
+            "extract_reads_stub_table", "torn_file_rewritten", "chdir", "clutter_mid_session", "retry_after_list-fail"],
+    "C09": ["fill_presentation_pair_checked", "fill_supplied_values_checked", "fill_nonexistent_path_rejected", "clutter_entries", "fill_refused_left_table_untouched",
+            "fill_frame_reused_after_refusal", "fill_must_refuse_rank", "fill_must_refuse_residual", "fill_ignore_flag_rank", "fill_ignore_flag_residual"],
 }
 
 COMPARE_FIELDS = ["kind", "status", "exc", "where", "array", "stdout", "stdout_len", "files", "writes", "keys", "dims", "table", "data"]
